@@ -28,6 +28,37 @@ CHECKS = {
         'note': 'Assumed: framed read/write stand-ins with ghost logs; String hash-key axioms; generated identities are one abstract value (uniqueness not claimed). Not covered: that registration happens on the Ok path (effect behind Arc<dyn>), connection closing, monitor reporting. socktype_parse is bounded (length <= 8).',
         'technique': 'Verus contracts on extracted handshake functions (async skeletons) + Kani for name parsers and the 12x12 table',
     },
+    'C07': {
+        'text': 'Verus proves, on the real text of ReqSocket/RepSocket send+recv and ZmqMessage: REQ writes exactly [empty]+payload and accepts a reply iff it has >=2 frames with an empty first frame, returning the rest; REP returns exactly the frames after the first empty delimiter (never zero frames), stores the envelope up to and including it, and writes envelope+reply. '
+                'All postconditions are over the whole frame sequence, so any payload content (including empty frames) is covered.',
+        'design_ref': 'DESIGN.md 4 (C07)',
+        'note': 'One assumed region (A-REGION-1: the enumerate loop that finds the delimiter). Stand-ins for scc/SegQueue/FairQueue/Framed*; sequential scope (Arc as Box).',
+        'technique': 'Verus contracts on async skeletons (await dropped) over Seq views of ZmqMessage and ghost wire logs',
+    },
+    'C08': {
+        'text': 'Verus proves the REQ/REP state machines per call: out-of-turn REQ send / REP send return the message intact and change nothing; REQ recv without a request changes nothing; a successful REQ send marks exactly the peer written to; REP send writes to exactly the entry of the stored requester and to no other (table equal elsewhere).',
+        'design_ref': 'DESIGN.md 4 (C08)',
+        'note': 'Sequential scope: per-call contracts over an owned peer-table model; interleavings of concurrent clients are not enumerated. RepSocketBackend::peer_disconnected is a stub.',
+        'technique': 'Verus state-machine contracts on extracted REQ/REP methods with a peer-table model (prophecy-style &mut entry)',
+    },
+    'C09': {
+        'text': 'Verus proves ROUTER recv returns [identity of the queue key] + frames unmodified for the first message item and forgets exactly the peers whose connection failed; ROUTER send (>=2 frames) writes frames[1..] to exactly the table entry whose identity equals frame 0 and fails without touching any entry otherwise; registration stores write half, queue entry and rotation entry under the same identity.',
+        'design_ref': 'DESIGN.md 4 (C09)',
+        'note': 'A-REGION-3/4 assumed (fair-queue insert/remove behind a mutex). Sequential scope. Identity provenance is C04.',
+        'technique': 'Verus contracts on ROUTER skeletons and GenericSocketBackend registration',
+    },
+    'C10': {
+        'text': 'Verus proves send_round_robin (and REQ\'s own loop): with no live peer the message comes back intact and no log changes; otherwise exactly the first live peer of the rotation gets the whole message through send (= feed and flush), vanished identities in front of it are dropped, and the chosen peer goes to the back of the queue; a failed write removes that peer. PUSH/DEALER send are proved to be exactly this.',
+        'design_ref': 'DESIGN.md 4 (C10)',
+        'note': 'Assumed: SegQueue FIFO, send completes after flush. Sequential scope. Strict rotation over n sends is a corollary for a duplicate-free queue (not re-proved globally).',
+        'technique': 'Verus loop invariant against a recursive first_live spec over the rotation queue',
+    },
+    'C14': {
+        'text': 'Cancellation safety is put back as explicit obligations after dropping .await: at every former suspension point of REQ, REP, ROUTER, DEALER and PULL recv Verus proves the protocol-state fields equal their entry values and every queue item consumed so far has been completely dealt with (skipped by design, or failed and forgotten), so a dropped future owns nothing.',
+        'design_ref': 'DESIGN.md 4 (C14)',
+        'note': 'Socket-state half only: cancel-safety of FairQueue::next / FramedRead::next / scc get_async is assumed. SUB/XPUB recv and proxy() not covered.',
+        'technique': 'Verus await-point invariants spliced before each former .await of the extracted recv functions',
+    },
     'C03': {
         'text': 'Every index, slice, get_u8/u32/u64, split_to, advance, expect, arithmetic operation and recursion/loop measure in the byte-reachable synchronous code is a Verus obligation under no precondition but the representation invariant; '
                 'allocation is bounded through a ghost counter on BytesMut::reserve; parsers Verus cannot read are covered by Kani (complete or bounded as labelled).',
@@ -40,14 +71,9 @@ CHECKS = {
 NOT_APPLICABLE = {
     'C05': 'quantifies over arrival schedules and concurrent connect/disconnect; the mechanism (FairQueue::poll_next releasing a parking_lot lock around a checked-out stream, wakers firing on other threads) is outside what Verus (no Pin/Context/Waker/lock-guard specs, &mut model assumes no interference) or Kani (no threads, crashes on parking_lot, HashMap intractable) can express; the per-connection part is discharged under C02',
     'C06': 'liveness / fairness over adversarial schedules; wake-ups go through &Waker (no state a per-call contract can see)',
-    'C07': 'not yet built in this session (planned: reqrep unit)',
-    'C08': 'not yet built in this session (planned: reqrep unit)',
-    'C09': 'not yet built in this session (planned: routing unit)',
-    'C10': 'not yet built in this session (planned: routing unit)',
     'C11': 'the filter lives behind Pin<Box<FramedWrite>>::as_mut() and an scc cursor, the bookkeeping behind scc entry mutation and iter().position(closure): Verus parses none of these and Kani cannot run scc',
     'C12': 'about back-pressure schedules and the Sink polling protocol on Pin<&mut Self>; no per-call contract expresses it',
     'C13': 'about races between subscribe and background accepts; code mutates through a lock guard DerefMut and iterator adapters outside both tools',
-    'C14': 'not yet built in this session (planned: await-point invariants in reqrep/routing units)',
     'C15': 'futures::select! expansion and scheduling',
     'C16': 'fault x schedule sequences, Drop and descriptor release, fair-queue internals',
     'C17': 'OS listeners, runtime task termination, Drop',
